@@ -110,6 +110,10 @@ func checkC10(c CaseC10, x *hx.Ctx) (fail *hx.Failure) {
 	nextIndex := 0
 	var hist []string
 	var sawBreakaway, pendingBreakaway, interesting bool
+	var sharedSig scte35.SCTE35 // signal object that several same-PTS descriptors are attached to
+	var sharedList []scte35.SegmentationDescriptor
+	var sharedPTS uint64
+	sharedUsed := false
 
 	defer func() {
 		if r := recover(); r != nil {
@@ -179,9 +183,29 @@ func checkC10(c CaseC10, x *hx.Ctx) (fail *hx.Failure) {
 					}
 					perPTS++
 				}
-				nd, f := c10Make(o, pts, hasPTS)
-				if f != nil {
-					return f
+				var nd *c10Desc
+				if hasPTS && !o.Decoded && o.SamePTS && sharedSig != nil && sharedPTS == pts && len(sharedList) < 4 {
+					// attach to the SAME signal object as the previous API-built descriptor of this PTS
+					obj := scte35.CreateSegmentationDescriptor()
+					obj.SetTypeID(scte35.SegDescType(o.Type))
+					obj.SetEventID(o.Event)
+					obj.SetSegmentNumber(o.Num)
+					obj.SetSegmentsExpected(o.Exp)
+					obj.SetHasProgramSegmentation(true)
+					obj.SetIsDeliveryNotRestricted(true)
+					sharedList = append(sharedList, obj)
+					sharedSig.SetDescriptors(sharedList)
+					nd = &c10Desc{obj: obj, abs: DescC19{Type: o.Type, Event: o.Event, HasPTS: true, PTS: pts, Num: o.Num, Exp: o.Exp}}
+					sharedUsed = true
+				} else {
+					var f *hx.Failure
+					nd, f = c10Make(o, pts, hasPTS)
+					if f != nil {
+						return f
+					}
+					if hasPTS && !o.Decoded {
+						sharedSig, sharedPTS, sharedList = nd.obj.SCTE35(), pts, []scte35.SegmentationDescriptor{nd.obj}
+					}
 				}
 				d = nd
 				byObj[d.obj] = d
@@ -340,13 +364,14 @@ func checkC10(c CaseC10, x *hx.Ctx) (fail *hx.Failure) {
 	x.LabelIf(sawBreakaway, "has-breakaway")
 	x.LabelIf(sawBreakaway && interesting, "breakaway-interleaved")
 	x.LabelIf(len(c.Ops) >= 10, ">=10-steps")
+	x.LabelIf(sharedUsed, "several-descriptors-on-one-signal-object")
 	return nil
 }
 
 var propC10 = hx.Register(hx.Prop[CaseC10]{ID: "C10", Gen: genC10, Check: checkC10})
 
 func c10Rule() {
-	hx.Rec("C10").SetRule("cases: histories of 1..40 calls on one tracker: process(new descriptor: type from a 26-type alphabet covering every rule kind plus two types without rules, weighted towards breakaway/resumption/network/unscheduled; event id 1..3; segment number/expected 0..2; attached to a signal whose PTS repeats the previous one (<= 5 per PTS) or advances; built through the API or by decoding a reference encoding), process(the same object again immediately), process(descriptor whose signal has no PTS), close(a previously seen descriptor, biased to recent ones, or a fresh one), open(). Oracle: invariants over the observable history by object identity, checked after EVERY call: Open() contains only successfully processed, not yet closed, not discarded, distinct descriptors in opening order; every closed descriptor was open, never closed before, closable under the transcribed rule table and the library's own CanClose (or equal, for explicit close), closed lists last-opened first; immediate re-processing => duplicate error and unchanged Open(); PTS-less => error, nothing closed, unchanged Open(); a recovered panic is a violation. Enumerated: all histories of length <= 4 over 9 descriptor kinds + 2 explicit closes. Non-trivial: the history contains a breakaway and, while it is pending, a descriptor that closes it, an explicit close, a second breakaway, a resumption, or an immediate re-processing.",
+	hx.Rec("C10").SetRule("cases: histories of 1..40 calls on one tracker: process(new descriptor: type from a 26-type alphabet covering every rule kind plus two types without rules, weighted towards breakaway/resumption/network/unscheduled; event id 1..3; segment number/expected 0..2; attached to a signal whose PTS repeats the previous one (<= 5 per PTS; API-built ones then share ONE signal object, as the descriptors of one decoded section do) or advances; built through the API or by decoding a reference encoding), process(the same object again immediately), process(descriptor whose signal has no PTS), close(a previously seen descriptor, biased to recent ones, or a fresh one), open(). Oracle: invariants over the observable history by object identity, checked after EVERY call: Open() contains only successfully processed, not yet closed, not discarded, distinct descriptors in opening order; every closed descriptor was open, never closed before, closable under the transcribed rule table and the library's own CanClose (or equal, for explicit close), closed lists last-opened first; immediate re-processing => duplicate error and unchanged Open(); PTS-less => error, nothing closed, unchanged Open(); a recovered panic is a violation. Enumerated: all histories of length <= 4 over 9 descriptor kinds + 2 explicit closes. Non-trivial: the history contains a breakaway and, while it is pending, a descriptor that closes it, an explicit close, a second breakaway, a resumption, or an immediate re-processing.",
 		"the same object is re-submitted only immediately (the duplicate ring legitimately forgets after 10 signal times)",
 		"at most 5 descriptors per PTS value (the received list doubles per same-PTS descriptor: a cost issue outside this property)",
 		"a breakaway counts as open although Open() hides it while the blackout lasts; descriptors that vanish from Open() at a resumption count as discarded")
